@@ -1,9 +1,9 @@
 #!/bin/bash
-# usage: tools/run_thorough.sh ID...   - runs thorough tier for the given checks sequentially with a 60 min cap each
+# usage: tools/run_thorough.sh ID...   - runs thorough tier for the given checks sequentially with a 45 min cap each
 cd /verif
 for id in "$@"; do
   s=$(date +%s)
-  timeout 3600 ./check $id --tier thorough > /tmp/thor_$id.out 2>&1; rc=$?
+  timeout 2700 ./check $id --tier thorough > /tmp/thor_$id.out 2>&1; rc=$?
   e=$(date +%s)
   echo "$id rc=$rc violations=$(grep -c '^VIOLATION' /tmp/thor_$id.out) known=$(grep -c '^KNOWN-FINDING' /tmp/thor_$id.out) secs=$((e-s)) :: $(tail -1 /tmp/thor_$id.out | cut -c1-160)"
 done
